@@ -35,14 +35,40 @@ type VerifTicker struct {
 	last    timeoutInfo
 	pending []VerifTimeout
 	seq     int
+	// the real ticker takes schedule requests through a channel of tickTockBufferSize entries
+	// that only its own routine (started by Start) drains: more requests than that before
+	// Start block the caller for ever
+	started   bool
+	unstarted int
+	overflow  bool
 }
 
-func (t *VerifTicker) Start() (bool, error)     { return true, nil }
+func (t *VerifTicker) Start() (bool, error) {
+	t.mu.Lock()
+	t.started, t.unstarted = true, 0
+	t.mu.Unlock()
+	return true, nil
+}
 func (t *VerifTicker) Stop() bool               { return true }
 func (t *VerifTicker) Chan() <-chan timeoutInfo { return t.ch }
+
+// Overflowed reports that more timeouts were scheduled before Start than the real ticker's
+// request channel holds (the real caller would be blocked for ever).
+func (t *VerifTicker) Overflowed() bool {
+	t.mu.Lock()
+	defer t.mu.Unlock()
+	return t.overflow
+}
+
 func (t *VerifTicker) ScheduleTimeout(newti timeoutInfo) {
 	t.mu.Lock()
 	defer t.mu.Unlock()
+	if !t.started {
+		t.unstarted++
+		if t.unstarted > tickTockBufferSize {
+			t.overflow = true
+		}
+	}
 	ti := t.last
 	if newti.Height < ti.Height {
 		return
